@@ -7,6 +7,8 @@ one() {
   if echo "$out" | grep -q "checks not at exit 0: 0"; then echo "== $(basename $d): clean"; else echo "== $(basename $d): ALARM"; echo "$out" | tail -6; fi
 }
 if [ "$1" = "--one" ]; then one "$2"; exit 0; fi
-L=$(mktemp /tmp/replay-rf.XXXXXX); trap 'rm -f "$L"' EXIT
+L=$(mktemp /tmp/replay-rf.XXXXXX); SD=$(mktemp -d /tmp/replay-rf-snap.XXXXXX); trap 'rm -rf "$L" "$SD"' EXIT
+# one frozen snapshot of the machinery for the whole replay (edits under /verif meanwhile must not leak into it)
+cp -r /verif/sa /verif/check /verif/known_findings.json /verif/properties.jsonl "$SD/"; ln -s /verif/.cache "$SD/.cache"; export SNAP_DIR="$SD"
 ls -d /verif/refactorings/*/ | xargs -P ${JOBS:-6} -I{} sh -c '/verif/tools/replay_refactorings.sh --one {} > '"$L"'.$$ 2>&1; cat '"$L"'.$$; rm -f '"$L"'.$$' | tee "$L"
 bad=$(grep -c ": ALARM" "$L"); echo "refactoring patches replayed: $(grep -c '^== ' "$L"), with alarms: $bad"; [ "$bad" -eq 0 ]
